@@ -52,8 +52,53 @@ pub struct Outcome {
 pub fn exec_case(case: &Case, prop: Prop) -> CaseReport {
     match case.keys {
         KeyMode::Tracked => run_case::<TKey>(case, prop, false),
-        KeyMode::Str => run_case::<String>(case, prop, false),
+        KeyMode::Str => {
+            if prop == Prop::C02 {
+                return c02_two_forms(case);
+            }
+            run_case::<String>(case, prop, false)
+        }
     }
+}
+
+/// C02 with `String` keys: besides the shadow-map oracle, the same history is run a second
+/// time with every lookup going through the *other* form of the key (`&str` <-> `&String`);
+/// both runs must produce the same results and states.
+fn c02_two_forms(case: &Case) -> CaseReport {
+    let rep = run_case::<String>(case, Prop::C02, false);
+    if rep.violation.is_some() || rep.aborted_by_panic.is_some() || rep.unbuildable.is_some() {
+        return rep;
+    }
+    if case.kind == Kind::Wtl && case.cfg.kh == KhSpec::Default {
+        // two separately built W-TinyLFU caches with the default (randomly keyed) key hasher
+        // get different admission verdicts: not comparable
+        return rep;
+    }
+    let mut flipped = case.clone();
+    for op in flipped.ops.iter_mut() {
+        match op {
+            Op::Get(_, b) | Op::GetMut(_, b, _) | Op::Peek(_, b) | Op::PeekMut(_, b, _) | Op::Contains(_, b) | Op::Remove(_, b) => *b = !*b,
+            _ => {}
+        }
+    }
+    let a = run_case::<String>(case, Prop::Trace, true);
+    let b = run_case::<String>(&flipped, Prop::Trace, true);
+    let mut rep = rep;
+    if a.aborted_by_panic.is_some() || b.aborted_by_panic.is_some() {
+        return rep;
+    }
+    for i in 0..a.trace.len().min(b.trace.len()) {
+        if a.trace[i] != b.trace[i] || a.views[i].lists != b.views[i].lists {
+            rep.violation = Some(Violation {
+                prop: "C02",
+                step: i,
+                msg: format!("the {}-th executed op gives {:?} / state {:?} with one form of the key and {:?} / state {:?} with the other form (&str vs &String)", i, a.trace[i], a.views[i].lists, b.trace[i], b.views[i].lists),
+                sig: format!("{}/-/borrowed-form-differs", case.kind.short()),
+            });
+            break;
+        }
+    }
+    rep
 }
 
 pub fn profile_for(prop: Prop, thorough: bool) -> Profile {
@@ -157,6 +202,10 @@ pub fn rule_for(prop: Prop) -> &'static str {
 
 /// journal the cases of the engine about to run (crash attribution by the supervising parent)
 pub fn journal_for(ctx: &Ctx, engine: &str) {
+    if std::env::var_os("VH_NO_JOURNAL").is_some() {
+        set_journal(None);
+        return;
+    }
     set_journal(Some((format!("{}/work/journal", ctx.verif_dir), engine.to_string())));
 }
 
@@ -625,6 +674,66 @@ pub fn check_e2(ctx: &Ctx, prop: Prop, kinds: &[Kind], out: &mut Outcome) {
             let min = minimize(&case, &fails);
             let v = exec_case(&min, prop).violation.unwrap_or(v);
             let path = write_replay(&ctx.replay_dir(), &ctx.id, "e2", serde_json::to_value(&min).unwrap(), &v);
+            out.violations.push((path, v.msg));
+        }
+    }
+}
+
+pub fn case_json(c: &Case) -> String {
+    serde_json::to_string(c).unwrap_or_default()
+}
+
+// ------------------------------------------------------------------------------ C12 laws
+
+#[derive(Clone, Copy, Debug, PartialEq)]
+enum MirrorPr {
+    Put,
+    Update(u32),
+    Evicted(u16, u32),
+    EvictedAndUpdate((u16, u32), u32),
+}
+
+/// structural laws of `PutResult` over the complete small domain (payloads 0..3): equality is
+/// exactly "same variant, equal payloads", Clone and Copy preserve it, Debug does not panic
+pub fn check_putresult_laws(ctx: &Ctx, out: &mut Outcome) {
+    use caches::PutResult;
+    let mut vals: Vec<(PutResult<u16, u32>, MirrorPr)> = vec![(PutResult::Put, MirrorPr::Put)];
+    for a in 0..3u32 {
+        vals.push((PutResult::Update(a), MirrorPr::Update(a)));
+        for k in 0..3u16 {
+            vals.push((PutResult::Evicted { key: k, value: a }, MirrorPr::Evicted(k, a)));
+            for u in 0..3u32 {
+                vals.push((PutResult::EvictedAndUpdate { evicted: (k, a), update: u }, MirrorPr::EvictedAndUpdate((k, a), u)));
+            }
+        }
+    }
+    let mut pairs = 0u64;
+    let mut bad: Option<String> = None;
+    let r = std::panic::catch_unwind(std::panic::AssertUnwindSafe(|| {
+        for (a, ma) in vals.iter() {
+            let c = a.clone();
+            let d = *a; // Copy
+            if !(c == *a) || !(d == *a) || !(*a == *a) {
+                bad.get_or_insert(format!("{:?}: clone / copy / self comparison is not equal", ma));
+            }
+            let _ = format!("{:?}", a);
+            for (b, mb) in vals.iter() {
+                pairs += 1;
+                if (a == b) != (ma == mb) || (a == b) != (b == a) {
+                    bad.get_or_insert(format!("{:?} == {:?} is {}, structurally it is {}", ma, mb, a == b, ma == mb));
+                }
+            }
+        }
+    }));
+    if r.is_err() {
+        bad = Some("a PutResult law check panicked".to_string());
+    }
+    out.coverage.insert("putresult_pairs_exhaustive".into(), json!(pairs));
+    out.coverage.insert("putresult_values".into(), json!(vals.len()));
+    if let Some(msg) = bad {
+        let v = Violation { prop: "C12", step: 0, msg: format!("PutResult structural law broken: {}", msg), sig: "putresult/-/law".into() };
+        if ctx.known.matches(&ctx.id, &v.sig).is_none() {
+            let path = write_replay(&ctx.replay_dir(), &ctx.id, "putresult", json!({"domain": "all PutResult<u16,u32> values with payloads in 0..3"}), &v);
             out.violations.push((path, v.msg));
         }
     }
